@@ -31,6 +31,33 @@ pub fn run(mut config: Config) -> ::anyhow::Result<()> {
         ));
     }
 
+    // Refuse protocol limits that allow responses which don't fit the send
+    // buffer: such responses would be dropped instead of sent
+    {
+        let send_buffer_len = workers::socket::send_buffer_len(&config);
+
+        // Fixed part plus peers. IPv6 peers (18 bytes each) are the largest
+        let max_announce_response_len =
+            20usize.saturating_add(18usize.saturating_mul(config.protocol.max_response_peers));
+        // Fixed part plus statistics for each torrent
+        let max_scrape_response_len = 8 + 12 * usize::from(config.protocol.max_scrape_torrents);
+
+        if max_announce_response_len > send_buffer_len {
+            return Err(anyhow::anyhow!(
+                "protocol.max_response_peers is too large: responses of up to {} bytes don't fit in the {} byte send buffer",
+                max_announce_response_len,
+                send_buffer_len
+            ));
+        }
+        if max_scrape_response_len > send_buffer_len {
+            return Err(anyhow::anyhow!(
+                "protocol.max_scrape_torrents is too large: responses of up to {} bytes don't fit in the {} byte send buffer",
+                max_scrape_response_len,
+                send_buffer_len
+            ));
+        }
+    }
+
     if config.socket_workers == 0 {
         config.socket_workers = available_parallelism().map(Into::into).unwrap_or(1);
     };
